@@ -122,9 +122,10 @@ class BindingSubscriptsCollector(
                                          set[tuple[Expression, ...]]]]) \
                         -> dict[BindingName, set[tuple[Expression, ...]]]:
         out: dict[BindingName, set[tuple[Expression, ...]]] = {}
-        import operator
-        from functools import reduce
-        return reduce(operator.or_, values, out)
+        for val in values:
+            for name, subscripts in val.items():
+                out.setdefault(name, set()).update(subscripts)
+        return out
 
     def map_subscript(self, expr: prim.Subscript) -> dict[BindingName,
                                                     set[tuple[Expression, ...]]]:
@@ -135,7 +136,8 @@ class BindingSubscriptsCollector(
 
         base_result = super().map_subscript(expr)
         if isinstance(expr.aggregate, prim.Variable):
-            return {expr.aggregate.name: {expr.index_tuple}, **base_result}
+            return self.combine([{expr.aggregate.name: {expr.index_tuple}},
+                                 base_result])
         return base_result
 
     def map_algebraic_leaf(self, expr: Expression) -> dict[BindingName,
